@@ -173,6 +173,30 @@ func checkCase(prop string) func(h *hx.H, c Case) {
 		}
 		h.Label(r.labels...)
 		h.NonTrivial(r.nt)
+		if dir := os.Getenv("P_ORACLE_SURVEY"); dir != "" {
+			// development aid: never fail, count every signature and keep one minimised example of each
+			for _, v := range r.viol {
+				h.Label("VIOL:" + v.sig)
+				if _, done := minimised[v.sig]; !done {
+					minimised[v.sig] = ""
+					m := minimise(c, prop, v.sig)
+					mj, _ := json.Marshal(m)
+					msg := v.msg
+					if rm := run(m, checkers[prop], prop); hasSig(rm, v.sig) {
+						for _, w := range rm.viol {
+							if w.sig == v.sig {
+								msg = w.msg
+								break
+							}
+						}
+					}
+					os.MkdirAll(dir, 0o755)
+					name := strings.NewReplacer("/", "_", ":", "_", " ", "_", "*", "_").Replace(prop + "__" + v.sig)
+					os.WriteFile(dir+"/"+name+".txt", []byte(fmt.Sprintf("SIG %s\nCASE {\"case\": %s}\n%s\n", v.sig, mj, msg)), 0o644)
+				}
+			}
+			return
+		}
 		for _, v := range r.viol {
 			if _, done := minimised[v.sig]; !isKnown(prop, v.sig) && !hx.Replaying() && !done {
 				minimised[v.sig] = "" // once per signature and process: rapid's own shrinking re-enters here
